@@ -373,7 +373,13 @@ func vfH_close_seq() {
 			return
 		}
 	case 1:
-		err = c.WriteMessage(CloseMessage, FormatCloseMessage(1000, ""))
+		reason := ""
+		if isServer && !compress && vfChoose(2) == 1 {
+			// longer than the write buffer: the server fast path sends the payload as a
+			// second buffer (a client would have to fragment it: an invalid request, C10)
+			reason = "a close reason that is longer than the write buffer"
+		}
+		err = c.WriteMessage(CloseMessage, FormatCloseMessage(1000, reason))
 	case 2:
 		var w io.WriteCloser
 		w, err = c.NextWriter(CloseMessage)
